@@ -92,6 +92,12 @@ pub enum CStep {
         s: u8,
         ok: bool,
     },
+    /// the gossip layer reports the other node of the lane as gone (must not touch the slot)
+    NeighborDown {
+        #[serde(default)]
+        l: u8,
+        x: u8,
+    },
     /// a request for a document that the callee is not syncing (`held`: but holds in its store)
     UnknownDocRequest {
         #[serde(default)]
@@ -266,7 +272,8 @@ impl Scenario for Coord {
             let x = rng.below(2) as u8;
             let l = if rng.chance(4, 5) { *rng.pick(&hot) } else { rng.below(lanes) as u8 };
             let s = match rng.below(30) {
-                0..=5 => CStep::NeighborUp { l, x },
+                0..=4 => CStep::NeighborUp { l, x },
+                5 => CStep::NeighborDown { l, x },
                 6..=8 => CStep::SyncReport { l, x, news: rng.chance(3, 4) },
                 9..=14 => CStep::DeliverRequest { l, d: rng.below(4) as u8 },
                 15..=16 => CStep::LoseRequest { l, d: rng.below(4) as u8 },
@@ -312,7 +319,7 @@ impl Scenario for Coord {
     }
 
     fn rule(&self) -> String {
-        "A run is 3-32 network decisions between two or three live actors (any id order) that sync one or two documents; every (document, pair of nodes) is a lane with its own oracles and steps name their lane: neighbour-up and sync-report (news / no news) events, delivery / loss / breakage of each dial's request, delivery or loss of a decline, independent ok/failed completion of the dial side and the accept side of each session, requests for an unknown document; then every leftover is resolved and, at quiescence, in every lane both nodes must be idle for each other and demonstrably able to dial and to accept. Non-trivial: a loss/breakage/failure fault fired or a decline (AlreadySyncing / NotFound) or resync was observed.".into()
+        "A run is 3-32 network decisions between two or three live actors (any id order) that sync one or two documents; every (document, pair of nodes) is a lane with its own oracles and steps name their lane: neighbour-up, neighbour-down and sync-report (news / no news) events, delivery / loss / breakage of each dial's request, delivery or loss of a decline, independent ok/failed completion of the dial side and the accept side of each session, requests for an unknown document; then every leftover is resolved and, at quiescence, in every lane both nodes must be idle for each other and demonstrably able to dial and to accept. Non-trivial: a loss/breakage/failure fault fired or a decline (AlreadySyncing / NotFound) or resync was observed.".into()
     }
 }
 
@@ -533,6 +540,11 @@ async fn run(plan: &CoordPlan, cx: &mut Cx) -> Res {
             CStep::NeighborUp { l, x } => {
                 let (l, x) = (*l as usize % nl, *x as usize % 2);
                 send!(lanes[l].n[x], ToLiveActor::NeighborUp { namespace: lanes[l].ns, peer: nodes[lanes[l].n[1 - x]].id });
+            }
+            CStep::NeighborDown { l, x } => {
+                let (l, x) = (*l as usize % nl, *x as usize % 2);
+                send!(lanes[l].n[x], ToLiveActor::NeighborDown { namespace: lanes[l].ns, peer: nodes[lanes[l].n[1 - x]].id });
+                cx.probe("neighbour_down_event");
             }
             CStep::SyncReport { l, x, news } => {
                 let (l, x) = (*l as usize % nl, *x as usize % 2);
